@@ -13,6 +13,18 @@ func init() { props["C11"] = checkC11 }
 
 func checkC11(c *Ctx) {
 	c.Decides("GO-WG: every worker goroutine whose launcher does wg.Add signals wg.Done on every exit path (CFG must-pass-through); GO-CLOSE: every result channel that is ranged over or returned is closed by a goroutine on all of its paths, after wg.Wait when workers send on it; GO-NILCHAN: no receive/range on a local channel variable that is still nil on some path; GO-WRITE: inside a goroutine that has several live instances, every store goes to an object the instance owns (declared in it / received from a channel), to a slot indexed by such an object's id, under a mutex, or through sync/atomic — directly or through repository callees (bottom-up write summaries)")
+	c.Decides("CHUNK-REMAINDER: a function of the threaded computations that cuts its work into pieces of len(x)/n elements deals with the remainder; NIL-ON-ERR: in Compare, CompareWeighted, FBP and TBE the Tree of a received item is touched only where its Err is known to be nil (a malformed tree reaches the caller as an error, not as a crash of a worker)")
+	{
+		fs := append(c.AllFuncs("support"), c.funcsInFiles("tree/algo.go")...)
+		sites, _ := c.chunkRemainder("CHUNK-REMAINDER", fs, "the same results as the single-threaded computation whatever the number of threads")
+		c.Trivial("CHUNK-REMAINDER", "scan", 0, fmt.Sprintf("%d work partitions by a quotient of a length", sites))
+		s2, _ := c.nilOnErr("NIL-ON-ERR", []*FuncInfo{c.Func("tree", "", "Compare"), c.Func("tree", "", "CompareWeighted"), c.Func("support", "", "FBP"), c.Func("support", "", "TBE")}, "a malformed tree's error reaches the caller instead of a hang or a crash")
+		if s2 < 8 {
+			c.Undecided("NIL-ON-ERR", "scan", 0, fmt.Sprintf("only %d uses of an item's Tree seen in the four computations", s2))
+		} else {
+			c.Trivial("NIL-ON-ERR", "scan", 0, fmt.Sprintf("%d uses of an item's Tree, all where its Err is known to be nil", s2))
+		}
+	}
 	c.Decides("COUNTER-STEP: in the readers every SetId(counter) is followed, in its statement list, by a step of that counter: branch ids are distinct, which the per-branch tallies written by concurrent workers (indexed by Edge.Id) rely on")
 	c.counterStep("COUNTER-STEP", c.AllFuncs("io/newick", "io/phyloxml", "io/nextstrain"), "no data race on the per-branch tallies")
 	c.Floor("COUNTER-STEP", 4)
